@@ -93,6 +93,31 @@ func checkPtrShare(c Case) error {
 		wants[e] = w
 	}
 	root, vue := fresh()
+	// a shared BASE template filled once with struct data (by pointer and by value), used by
+	// all goroutines at once through the stateless render methods, New and Load
+	baseOf := func(data any) vuego.Template {
+		return vuego.NewFS(memfs.FromMap(psFiles)).Fill(data)
+	}
+	basePost, baseAnn, basePostVal := baseOf(post), baseOf(ann), baseOf(*post)
+	baseCall := func(base vuego.Template, how, page string) result {
+		var buf bytes.Buffer
+		var err error
+		switch how {
+		case "string":
+			err = base.RenderString(context.Background(), &buf, psFiles[page])
+		case "new":
+			err = base.New().RenderString(context.Background(), &buf, psFiles[page])
+		default:
+			err = base.Load(page).Render(context.Background(), &buf)
+		}
+		return result{out: buf.String(), err: err != nil}
+	}
+	baseWant := map[string]result{}
+	for _, how := range []string{"string", "new", "load"} {
+		baseWant["post|"+how] = baseCall(baseOf(post), how, "post.vuego")
+		baseWant["postval|"+how] = baseCall(baseOf(*post), how, "post.vuego")
+		baseWant["ann|"+how] = baseCall(baseOf(ann), how, "author.vuego")
+	}
 	var mu sync.Mutex
 	var failures []string
 	var wg sync.WaitGroup
@@ -118,6 +143,22 @@ func checkPtrShare(c Case) error {
 				if got != exp {
 					mu.Lock()
 					failures = append(failures, fmt.Sprintf("%s, entry %s: returned %v, alone on a fresh engine it returns %v", what, e, got, exp))
+					mu.Unlock()
+				}
+				how := []string{"string", "new", "load"}[(g+r)%3]
+				var bgot result
+				var key string
+				switch (g + r/3) % 3 {
+				case 0:
+					bgot, key = baseCall(basePost, how, "post.vuego"), "post|"+how
+				case 1:
+					bgot, key = baseCall(basePostVal, how, "post.vuego"), "postval|"+how
+				default:
+					bgot, key = baseCall(baseAnn, how, "author.vuego"), "ann|"+how
+				}
+				if bgot != baseWant[key] {
+					mu.Lock()
+					failures = append(failures, fmt.Sprintf("shared base template filled with struct data (%s): returned %v, alone it returns %v", key, bgot, baseWant[key]))
 					mu.Unlock()
 				}
 			}
